@@ -38,16 +38,47 @@ def o_le(a, b):
     return all(a.get(k, 0) <= b.get(k, 0) for k in set(a) | set(b))
 
 
-def has_negative(j):
-    return any(int(q) < 0 for _, a in j["ma"] for _, q in a)
+def stored_keys(j):
+    return {(p, n) for p, x in j["ma"] for n, _ in x}
 
 
-def in_le_region(a, b):
-    """hypotheses of C05.le_componentwise_partial: left stores only positive, right only non-negative quantities,
-    no empty policy on the left"""
-    left = all(len(x) > 0 and all(int(q) > 0 for _, q in x) for _, x in a["ma"])
-    right = all(int(q) >= 0 for _, x in b["ma"] for _, q in x)
-    return left and right
+def key_directed_le(ja, jb):
+    """`<=` as the code computed it before the repair of KF-C05-le-negative (keys of the left operand only, a key
+    missing on the right = "not <="); used ONLY to measure how many generated pairs tell the two semantics apart"""
+    if int(ja["coin"]) > int(jb["coin"]):
+        return False
+    right = {p: {n: int(q) for n, q in x} for p, x in jb["ma"]}
+    for p, x in ja["ma"]:
+        if p not in right:
+            return False
+        for n, q in x:
+            if n not in right[p] or int(q) > right[p][n]:
+                return False
+    return True
+
+
+def le_patterns(ja, jb):
+    """the operand shapes on which a key-directed `<=` is not component-wise (stored entries, not contents)"""
+    ka, kb = stored_keys(ja), stored_keys(jb)
+    pa, pb = {p for p, _ in ja["ma"]}, {p for p, _ in jb["ma"]}
+    out = set()
+    for p, x in ja["ma"]:
+        if not x and p not in pb:
+            out.add("left-empty-policy-missing-right")
+        for n, q in x:
+            if (p, n) not in kb:
+                if int(q) < 0:
+                    out.add("left-neg-missing-right")
+                    out.add("left-neg-missing-right:" + ("name" if p in pb else "policy"))
+                elif int(q) == 0:
+                    out.add("left-zero-missing-right")
+                    out.add("left-zero-missing-right:" + ("name" if p in pb else "policy"))
+    for p, x in jb["ma"]:
+        for n, q in x:
+            if (p, n) not in ka and int(q) < 0:
+                out.add("right-neg-missing-left")
+                out.add("right-neg-missing-left:" + ("name" if p in pa else "policy"))
+    return out
 
 
 # ---------------------------------------------------------------------------------------------------------------
@@ -90,17 +121,29 @@ def check_binop(ctx, case):
             if m != r:
                 ctx.diff("value." + op, case, m, r)
         normal = V.is_normal_ma(ja["ma"]) and V.is_normal_ma(jb["ma"])
-        if not normal:
-            ctx.skipped += 1  # `==`/`<=` on operands storing zeros: outside the theorems' hypotheses; T2 only
+        e_eq = ca == cb
+        e_le = ca[0] <= cb[0] and o_le(ca[1], cb[1])
+        if op == "le":
+            # C05.le_iff: component-wise (absent = 0) on EVERY operand pair — stored zeros, empty policies and negative
+            # quantities on either side included
+            exp = e_le
+        elif normal:
+            exp = {"eq": e_eq, "lt": e_le and not e_eq}[op]
+        elif op == "lt":
+            # C05.lt_iff_le_ne: `<` is (component-wise) `<=` and not `==`, `==` being the implementation's own on
+            # operands that store zeros (where `==` is not component-wise: outside eq_componentwise)
+            exp = e_le and not (A == B)
         else:
-            e_eq = ca == cb
-            e_le = ca[0] <= cb[0] and o_le(ca[1], cb[1])
-            exp = {"eq": e_eq, "le": e_le, "lt": e_le and not e_eq}[op]
-            if r != exp:
-                fid = None
-                if op in ("le", "lt") and not in_le_region(ja, jb):
-                    fid = "KF-C05-le-negative"
-                ctx.violation(f"{op} is not the component-wise relation", case, exp, r, finding=fid)
+            exp = None
+            ctx.skipped += 1  # `==` on operands storing zeros: outside the theorem's hypotheses; T2 only
+        if exp is not None and r != exp:
+            ctx.violation(f"{op} is not the component-wise relation", case, exp, r)
+        if op in ("le", "lt"):
+            for k in le_patterns(ja, jb):
+                ctx.count("le-pattern:" + k)
+            ctx.count("le:" + ("true" if e_le else "false"))
+            if key_directed_le(ja, jb) != e_le:
+                ctx.count("le:key-directed-would-differ")
         ctx.count(op)
     ctx.case(case)
 
@@ -263,6 +306,65 @@ def derived_pair(rng):
     return a, b
 
 
+def set_entry(j, p, n, q):
+    """`j[p][n] = q` on the JSON image (the policy is created when absent)"""
+    for pp, x in j["ma"]:
+        if pp == p:
+            x.append([n, str(q)])
+            return
+    j["ma"].append([p, [[n, str(q)]]])
+
+
+LE_KINDS = ["plain", "greater", "left-neg", "left-zero", "right-neg", "left-neg", "left-zero", "right-neg",
+            "left-empty-policy", "two"]
+
+
+def le_pair(rng):
+    """operand pairs for `<=` / `<` that are component-wise ordered (a <= b) up to ONE injected feature, so that the
+    feature decides the answer: a negative / zero quantity stored on the left under a key (name or whole policy) the
+    right lacks (answer stays True), a negative quantity stored on the right under a key the left lacks (False), an
+    empty policy on the left the right lacks (True), one component pushed above (False)"""
+    a = V.gen_value_json(rng, npol=3, nname=4, zeros=rng.random() < 0.3, empties=rng.random() < 0.2)
+    bump = lambda: rng.choice([0, 0, 0, 1, 7, 2**63])
+    b = {"coin": str(int(a["coin"]) + bump()),
+         "ma": [[p, [[n, str(int(q) + bump())] for n, q in x]] for p, x in a["ma"]]}
+    for p, x in V.gen_ma_json(rng, npol=4, nname=5, negatives=False, maxp=2, maxn=2):
+        for n, q in x:
+            if (p, n) not in stored_keys(b):
+                set_entry(b, p, n, q)
+    if rng.random() < 0.5:
+        rng.shuffle(b["ma"])
+    kind = rng.choice(LE_KINDS)
+    used = stored_keys(a) | stored_keys(b)
+    free = [(p.hex(), n.hex()) for p in V.POLICIES[:5] for n in V.NAMES[:6] if (p.hex(), n.hex()) not in used]
+    rng.shuffle(free)
+    neg = lambda: -(rng.choice(V.QTYS) if rng.random() < 0.3 else rng.randint(1, 40))
+    if kind in ("left-neg", "two"):
+        set_entry(a, *free.pop(), neg())
+    if kind in ("left-zero", "two"):
+        set_entry(a, *free.pop(), 0)
+    if kind == "right-neg":
+        set_entry(b, *free.pop(), neg())
+    if kind == "left-empty-policy":
+        absent = [p.hex() for p in V.POLICIES if p.hex() not in {q for q, _ in a["ma"]} | {q for q, _ in b["ma"]}]
+        if absent:
+            a["ma"].append([rng.choice(absent), []])
+    if kind == "greater":
+        cells = [(i, k) for i, (_, x) in enumerate(b["ma"]) for k in range(len(x))]
+        if cells and rng.random() < 0.8:
+            i, k = rng.choice(cells)
+            p, (n, q) = b["ma"][i][0], b["ma"][i][1][k]
+            if (p, n) in stored_keys(a):
+                for pp, x in a["ma"]:
+                    if pp == p:
+                        x[:] = [[nn, str(int(q) + 1) if nn == n else qq] for nn, qq in x]
+            else:
+                set_entry(a, p, n, int(q) + 1)
+        else:
+            a["coin"] = str(int(b["coin"]) + 1)
+    return a, b, kind
+
+
 def dispatch(ctx, case):
     k = case["kind"]
     if k == "binop":
@@ -276,10 +378,16 @@ def dispatch(ctx, case):
 def corpus():
     p, n = V.POLICIES[0].hex(), V.NAMES[2].hex()
     neg = {"coin": "0", "ma": [[p, [[n, "-5"]]]]}
+    zq = {"coin": "0", "ma": [[p, [[n, "0"]]]]}
     zero = {"coin": "0", "ma": []}
     return [
-        {"kind": "binop", "op": "le", "a": neg, "b": zero},     # KF-C05-le-negative witness
+        # the witnesses of the repaired KF-C05-le-negative: True, False, True (key-directed: False, True, False)
+        {"kind": "binop", "op": "le", "a": neg, "b": zero},
         {"kind": "binop", "op": "le", "a": zero, "b": neg},
+        {"kind": "binop", "op": "le", "a": zq, "b": zero},
+        {"kind": "binop", "op": "lt", "a": neg, "b": zero},
+        {"kind": "binop", "op": "lt", "a": zero, "b": neg},
+        {"kind": "binop", "op": "le", "a": {"coin": "0", "ma": [[p, []]]}, "b": zero},
         {"kind": "binop", "op": "add", "a": {"coin": "5", "ma": [[p, [[n, "7"]]]]}, "b": {"coin": "1", "ma": [[p, [[n, "-7"]]]]}},
     ]
 
@@ -287,7 +395,10 @@ def corpus():
 def run(ctx):
     ctx.rule = ("operand pairs/triples over 3 policies x 4 names (name lengths 0..32) with negatives, stored zeros, "
                 "empty policies, magnitudes beyond 2^64, pairs derived from one another to force overlap and "
-                "zero-crossing; random histories of 10 operations over 4 shared variables with every variable "
+                "zero-crossing; `<=` / `<` additionally on pairs ordered component-wise up to one injected feature "
+                "(negative / zero quantity stored on the left under a name or policy the right lacks, negative quantity "
+                "stored on the right under a key the left lacks, empty policy, one component above), `<=` judged on "
+                "every pair; random histories of 10 operations over 4 shared variables with every variable "
                 "compared after every step; a case is non-trivial if it is a distinct (op, operands) / history")
     ctx.assumptions = ["aliasing freedom of the implementation is established by the differential run only "
                        "(the Lean model has no sharing)", "Python int = Lean Int (unbounded)"]
@@ -300,6 +411,13 @@ def run(ctx):
         a, b = derived_pair(rng)
         op = rng.choice(["add", "sub", "union", "eq", "le", "lt", "add", "sub"])
         dispatch(ctx, {"kind": "binop", "op": op, "a": a, "b": b})
+    for _ in range(ctx.budget(1500, 60000)):
+        a, b, kind = le_pair(rng)
+        if rng.random() < 0.1:
+            a, b = b, a
+            kind += ":swapped"
+        ctx.count("le-gen:" + kind)
+        dispatch(ctx, {"kind": "binop", "op": rng.choice(["le", "le", "lt"]), "a": a, "b": b})
     for _ in range(n_pairs // 10):
         a, b = derived_pair(rng)
         c = V.gen_value_json(rng, npol=3, nname=4)
